@@ -80,6 +80,10 @@ claim("C14", "who-may-read audit of the trace level, erasure equality of level-s
       "The trace level is read only in the reviewed functions; at each reader the alternatives selected by the level are equal after erasing trace wrappers and message text (`trace`/`todo`/`fail` typing, the validator wrapper, the `?` operator incl. `if v {True} else {False}` = v, the expect failure continuation = delayed error); Tracing::trace_level is a total table returning the stored level or Silent; every branch on the presence of an `otherwise` continuation is a reviewed one and the two decoders it selects agree per type kind.",
       "purity of message expressions (a trace argument that aborts runs only when tracing is on) and preservation of the equivalence by the optimiser are not decided", "DESIGN.md §3 C14", "shape")
 
+claim("C12", "sibling-table agreement between schema generator, schema validator and code generator casts; who-derives-the-index rule over @tag sites; traversal completeness of the decoder cache key; panic-site audit",
+      "Per type kind the schema generator publishes the Data class the code generator casts with, and the validator checks each schema node with the helper that tests the matching PlutusData constructor; constructor indices come from @tag (type-level decorators included) with the declaration position as fallback at all three derivation sites; constructors are matched on CBOR tag and general index; tuple arities are equalities; the decoder cache key visits every type component and is injective over type constructors; rejection by Err not panic (one demonstrated panic listed).",
+      "`iff` for nested / recursive / generic types (agreement of the three recursive descents beyond one level, on every value) is not decided", "DESIGN.md §3 C12", "shape+flow")
+
 
 def main():
     props = [json.loads(l) for l in open(os.path.join(HERE, "properties.jsonl"))]
